@@ -319,21 +319,19 @@ impl Harness {
             if *a == Act::Minimize {
                 #[cfg(feature = "likelysubtags")]
                 {
-                    // minimize(maximize(x)) == minimize(x) (return level, DESIGN §6.1); twice == once
+                    // minimize(maximize(x)) == minimize(x) at return level (DESIGN §6.1): the two
+                    // calls return the same bool and, when true, leave equal identifiers
                     let mut mx = st.imp.clone();
                     mx.id.maximize();
                     let b2 = mx.id.minimize();
-                    if Ret::Bool(b2) != r_imp && !(b2 && mx == imp) {
-                        // maximize changed it, so a `true` on the maximized value with the same
-                        // result as minimize(x) is also what the law asks for
-                        if !(b2 && !matches!(r_imp, Ret::Bool(true)) && mx.id == imp.id) {
-                            fault(faults, "c08.min_max", "minimize(maximize(x)) differs from minimize(x)", format!("{:?} {}", r_imp, imp), format!("{} {}", b2, mx));
-                        }
-                    } else if b2 && r_imp == Ret::Bool(true) && mx != imp {
-                        fault(faults, "c08.min_max", "minimize(maximize(x)) differs from minimize(x)", imp.to_string(), mx.to_string());
+                    let changed = r_imp == Ret::Bool(true);
+                    if b2 != changed || (changed && mx != imp) {
+                        fault(faults, "c08.min_max", "minimize(maximize(x)) differs from minimize(x)", format!("{} {}", changed, imp), format!("{} {}", b2, mx));
                     }
+                    // twice == once (values; the bool of the second call is not constrained)
                     let mut again = imp.clone();
-                    if r_imp == Ret::Bool(true) && (again.id.minimize() || again != imp) {
+                    again.id.minimize();
+                    if again != imp {
                         fault(faults, "c08.idempotent", "minimizing twice differs from minimizing once", imp.to_string(), again.to_string());
                     }
                 }
